@@ -34,6 +34,14 @@ def gen_case(rng):
     for i, n in enumerate(nodes):
         assets.append(gen.gen_market(rng, 'mkt%d' % i, n, f, 'p%d' % i, spread=gen.pick(rng, [0.5, 2., 6.]), cap=gen.pick(rng, [3., 10., 50.]))); pk.append('p%d' % i)
     ob = gen.gen_orderbook(rng, g, 'book', gen.pick(rng, nodes), n_orders=int(rng.integers(1, 26 if not full else 10)), full_exec=full, price_level=lvl)
+    if rng.random() < 0.3 and len(ob['orders']['start']) >= 1:
+        # the same order twice (two identical lots): two execution variables
+        k_ = int(rng.integers(len(ob['orders']['start'])))
+        pos_ = int(rng.integers(len(ob['orders']['start']) + 1))
+        for kk in ob['orders']:
+            ob['orders'][kk] = list(ob['orders'][kk]); ob['orders'][kk].insert(pos_, ob['orders'][kk][k_])
+    if g['tz'] is None and rng.random() < 0.4:
+        ob['_orders_as_df'] = True       # the documented DataFrame form of the order data (usable on naive grids)
     assets.append(ob)
     for j in range(int(rng.integers(0, 3))):
         key = 'q%d' % j; pk.append(key)
